@@ -5,7 +5,8 @@
 (*   setup_c     level 1: SetupConfig + the nic.Conf values the generators returned; the model   *)
 (*               kernel of Fib.tla applies them                                                  *)
 (*   setup_d     level 2: SetupConfig + Setup's result + dump of every namespace afterwards      *)
-(*   teardown_d  level 2: pod + result + dump afterwards                                         *)
+(*   teardown_d  level 2: pod + variant (cni | dp | generic = GenericTearDown alone) + result +   *)
+(*               dump afterwards                                                                 *)
 (*   rget        level 2, thorough: the kernel's answer to `ip route get`; must be one of the    *)
 (*               model's Lookups on the current state (interface fact: validates Fib.tla)        *)
 (* Every step is logged, so the walk is linear.                                                  *)
@@ -41,7 +42,9 @@ TSetupD == /\ IsEv("setup_d")
 
 TTeardownD == /\ IsEv("teardown_d")
               /\ LET e == Log[l] IN
-                 IF e.ok THEN TeardownOk(e.pod, StateOf(e.dump), AttsOf(e.pod)) ELSE TeardownFailed(e.pod, StateOf(e.dump), AttsOf(e.pod))
+                 IF ~e.ok THEN TeardownFailed(e.pod, StateOf(e.dump), AttsOf(e.pod))
+                 ELSE IF e.how = "generic" THEN TeardownGeneric(e.pod, StateOf(e.dump), AttsOf(e.pod))
+                 ELSE TeardownOk(e.pod, StateOf(e.dump), AttsOf(e.pod))
 
 KernelAgrees(e) ==
     LET M == Lookups(ns[e.ns], e.pkt) IN
